@@ -20,6 +20,9 @@
 // like, indices near MaxInt; only O(Len) work), including the named regression scenario for the
 // front+i overflow fixed in /repo commit df3d494.
 //
+// (e) element types of 64 KiB, 350 KiB, 1 MiB and 4 MiB (huge.go): a reduced small-capacity cover
+// with its own cheap runner.
+//
 // Element types: the deque is generic, so the static element type is an input too. Besides *int,
 // int and string, the cover and a reduced number of walks run over uint8 (1 byte), struct{} (0
 // bytes; single-valued, so only Len/panics/iteration counts/hook state are informative and the
@@ -33,6 +36,7 @@ import (
 	"math/bits"
 	"runtime"
 	"runtime/debug"
+	"strconv"
 	"strings"
 	"sync"
 
@@ -50,18 +54,26 @@ func main() {
 			"argument classes: Item/Set index in {neg, first, mid, last, len, beyond}, Grow n in {0, fits, realloc}, Shrink n in {neg, noop, to-fit, partial}. " +
 			"Pairs come from the state-cover closure (every class from every state with cap <= bound or cap == 16/32) and from the random walks. " +
 			"Both run for each of 8 element types (*int, int, string, uint8, struct{}, any, a 608-byte struct, a >4096-byte struct; the last two with a smaller cover bound and fewer, shorter walks); " +
-			"the element type is not part of the pair's key.")
+			"the element type is not part of the pair's key. Elements of 64 KiB, 350 KiB, 1 MiB and 4 MiB (the last not on 32-bit targets) run a reduced cover of the 1..4-slot buffers, compared by markers inside the elements.")
 		r.Assume("struct{} elements are indistinguishable: for that element type only lengths, panics, iteration counts and the raw state are compared")
 		r.Assume("a Deque value is not copied after first use (documented precondition); all calls on one deque come from one goroutine")
 		r.Assume("Grow is only called with n >= 0 (negative n is not specified by the statement)")
 		r.Assume("a Grow or Shrink that would have to allocate >= 2^56 elements may panic or return (it returns for zero-size elements); in both cases the contents are compared with the model afterwards")
 		r.Assume("which panic value a refused call raises is not judged: any panic counts as 'panicked'")
 		sh := newShared(r)
-		regress(r, sh)
+		wide := strconv.IntSize >= 64 // astronomic arguments need 64-bit ints
+		if wide {
+			regress(r, sh)
+		}
 		cover(r, sh)
-		band(r, sh)
+		if wide {
+			band(r, sh)
+		}
 		walks(r, sh)
-		hugeWalks(r, sh)
+		if wide {
+			hugeWalks(r, sh)
+		}
+		hugeElems(r)
 		sh.finish()
 	})
 }
@@ -262,7 +274,16 @@ func (o op) class(n, c int) string {
 // bytes), but can for a zero-size element type. When such a call has to reallocate, either outcome
 // (panicked | returned) is accepted; the contents must be the model's afterwards in both cases.
 // Nothing between 4096 and 2^56 is ever passed to Grow, so no real allocation can exhaust memory.
-func astronomic(n int) bool { return n >= 1<<56 }
+func astronomic(n int) bool { return n >= astroMin }
+
+// 2^56 with 64-bit ints. With 32-bit ints there are no such arguments (a buffer of 2^30 bytes can
+// really be allocated there), and the scenarios built on them are not run.
+var astroMin = func() int {
+	if strconv.IntSize >= 64 {
+		return math.MaxInt/128 + 1
+	}
+	return math.MaxInt
+}()
 
 // ---------------------------------------------------------------------------------------------
 // Abstract state (read through the hook)
@@ -325,7 +346,7 @@ func capBucket(c int) string {
 		return "cap 9..16"
 	case c <= 64:
 		return "cap 17..64"
-	case c < 1<<56:
+	case !astronomic(c):
 		return "cap > 64"
 	default:
 		return "cap astronomic (zero-size elements)"
